@@ -122,10 +122,18 @@ def run_recipe(ctx: Ctx, recipe: Dict[str, Any], cid: str) -> Case:
     ops = _ops_of(recipe)
     req, action = build_action(decl, (200, {}, ""))
     lines = decl_lines(decl)
-    tags = {f"strict:{decl['strict']}", f"calls:{min(len(ops), 6)}"}
+    tags = {f"strict:{decl['strict']}", f"calls:{min(sum(1 for o in ops if 'mutate' not in o), 6)}"}
     nontrivial = False
     sigs = []
+    last: Dict[str, Any] = {}
     for op in ops:
+        if "mutate" in op:
+            # the caller mutates what the public API RETURNED (out_arguments() / in_arguments() lists, the
+            # mapping of an earlier call): later decoding stays a function of the action as declared
+            c06.mutate_returned(action, op["mutate"], last)
+            lines.append(f"mutate {op['mutate']}")
+            tags.add("op:mutate:" + op["mutate"])
+            continue
         status, body = op["status"], op["body"]
         req.response = (status, {}, body)      # the SAME action object answers every call of the history
         exc: Optional[BaseException] = None
@@ -141,6 +149,7 @@ def run_recipe(ctx: Ctx, recipe: Dict[str, Any], cid: str) -> Case:
         except Exception as e:  # noqa: BLE001 - the exception is the observation
             exc = e
         tags.add("via:" + via)
+        last["result"] = result
         lines.append("call")
         variants = [] if not isinstance(body, str) else [body.rstrip(PAD), body.strip(PAD)]
         lines += oracle_lines(decl, variants)
@@ -442,6 +451,10 @@ def rand_case(rng) -> Dict[str, Any]:
         # a full success first, then an answer with a smaller out-argument subset: stale values of the
         # first call must not show up in the second
         ops[0] = rand_response(rng, decl, status=200, kind="success")
+    if rng.random() < 0.3:
+        pos = rng.randrange(1, len(ops) + 1)
+        ops[pos:pos] = [{"mutate": rng.choice(["out_reverse", "out_clear", "out_pop", "out_sort", "out_remove_first", "result_clear", "in_clear"])}]
+        ops.append(rand_response(rng, decl, status=200, kind="success"))
     return {"decl": decl, "ops": ops, "kwargs": _kwargs_for(decl)}
 
 
@@ -509,6 +522,8 @@ CORPUS = [
         {"status": 200, "kind": "success", "body": _ENV.format(f'<u:GetVolumeResponse xmlns:u="{_ST}"><A>1</A><B>x</B><C>5</C></u:GetVolumeResponse>')},
         {"status": 200, "kind": "success", "body": _ENV.format(f'<u:GetVolumeResponse xmlns:u="{_ST}"><C>6</C></u:GetVolumeResponse>')},
         {"status": 200, "kind": "success", "body": _ENV.format(f'<u:GetVolumeResponse xmlns:u="{_ST}"></u:GetVolumeResponse>')},
+        {"mutate": "out_clear"}, {"mutate": "result_clear"},
+        {"status": 200, "kind": "success", "body": _ENV.format(f'<u:GetVolumeResponse xmlns:u="{_ST}"><A>1</A><C>9</C></u:GetVolumeResponse>')},
         {"status": 500, "kind": "fault", "body": _ENV.format(_FAULT)},
         {"status": 200, "kind": "garbage", "body": "oops"},
         {"status": 200, "kind": "success", "body": _ENV.format(f'<u:GetVolumeResponse xmlns:u="{_ST}"><B>y</B><A>0</A></u:GetVolumeResponse>')},
